@@ -11,50 +11,39 @@ Variable grp : nat -> nat -> option (nat * nat).
 Variable auto use_grp : bool.
 Notation pn := (pnode g mm input grp auto use_grp).
 
-(* trees whose value does not depend on (and does not touch) the object under construction: terminals, nodes of
-   common and match rules, nodes of abstract rules all of whose children are such trees *)
-Fixpoint pureb (t : tree) : bool :=
-  match t with
-  | T _ _ _ _ => true
-  | NT nid ks =>
-    match info mm nid with
-    | IRule RAbstract _ _ => (fix all (l : list tree) : bool := match l with [] => true | k :: r => pureb k && all r end) ks
-    | IRule _ _ _ => true
-    | _ => false
-    end
-  end.
+(* Side condition on parse trees: Build.asg_placed (assignment nodes occur only as direct children of common-rule nodes),
+   the same condition C06 uses.  A tree with [asg_placed mm false] has a value that does not depend on (and does not
+   touch) the object under construction. *)
 
-(* the children of a rule's NonTerminal: assignment nodes with pure children, or pure trees *)
-Definition kid_okb (k : tree) : bool :=
-  match k with
-  | T _ _ _ _ => true
-  | NT nid ks => match info mm nid with IAsgn _ _ => forallb pureb ks | _ => pureb k end
-  end.
-
-(* the value process_node computes for a pure tree *)
+(* the value process_node computes for such a tree *)
 Definition vof (t : tree) : value :=
   match pn t None with BOk (v, _) => v | BErr _ => VNone end.
 
-(* the values one child of the rule's NonTerminal contributes to attribute an: `=` the converted first child,
+(* a non-containment reference is kept as a pending reference value at the place of the match *)
+Definition is_link (ma : attr) : bool := (a_ref ma && negb (a_cont ma))%bool.
+Definition wrap (ma : attr) (k : tree) (v : value) : value :=
+  if is_link ma then VRef v (tpos k) (a_cls ma) else v.
+
+(* the values one child of the rule's NonTerminal contributes to attribute ma: `=` the converted first child,
    `?=` True, `*=`/`+=` the converted non-separator children, in order *)
-Definition kid_vals (an : list N) (k : tree) : list value :=
+Definition kid_vals (ma : attr) (k : tree) : list value :=
   match k with
   | T _ _ _ _ => []
   | NT nid ks =>
     match info mm nid with
     | IAsgn a op =>
-      if str_eqb an a then
+      if str_eqb (a_name ma) a then
         match op with
-        | OpPlain => match ks with k0 :: _ => [vof k0] | [] => [] end
+        | OpPlain => match ks with k0 :: _ => [wrap ma k0 (vof k0)] | [] => [] end
         | OpOptional => [VBool true]
-        | OpList => map vof (filter (fun t => negb (is_sep_of g nid t)) ks)
+        | OpList => map (fun t => wrap ma t (vof t)) (filter (fun t => negb (is_sep_of g nid t)) ks)
         | OpOther => []
         end
       else []
     | _ => []
     end
   end.
-Definition tvals (an : list N) (kids : list tree) : list value := flat_map (kid_vals an) kids.
+Definition tvals (ma : attr) (kids : list tree) : list value := flat_map (kid_vals ma) kids.
 
 Definition is_many (m : mult) : bool := match m with MStar | MPlus => true | _ => false end.
 
